@@ -122,6 +122,22 @@ def pcgls_preconditioner(c, branch, form='matrix'):
         config.MAX_DIM_INV = old
 
 
+def cgls_long_run(c, cls, form):
+    """a run of well over a hundred iterations (120 x 80 system, condition number about 10, tight tolerance): the converged point solves the normal equations,
+    in both operator forms, with the same iteration count (bounded stand-in: native; long runs are where periodic safeguards would act)"""
+    rng = np.random.default_rng(int(c.real('seed', lo=0, hi=10 ** 6)))
+    m, n = 120, 80
+    A = rng.standard_normal((m, n)); b = rng.standard_normal(m); x0 = rng.standard_normal(n)
+    Aarg = A if form == 'matrix' else (lambda v, flag: A @ v if flag == 1 else A.T @ v)
+    if cls == 'CGLS': xs, k = S.CGLS(Aarg, b, x0.copy(), 2000, 1e-13).solve()
+    else:
+        import scipy.sparse as sp
+        xs, k = S.PCGLS(Aarg, b, x0.copy(), sp.identity(n, format='csc'), 2000, 1e-13).solve()
+    ref = np.linalg.solve(A.T @ A, A.T @ b)
+    c.holds('harness:the_run_is_long', k > 60, note=f"{k} iterations")
+    c.holds('converged_solution_solves_the_normal_equations', bool(np.linalg.norm(xs - ref) <= 1e-8 * np.linalg.norm(ref)), note=f"relative error {np.linalg.norm(xs - ref) / np.linalg.norm(ref):.3g} after {k} iterations")
+
+
 def cgls_large_norm_start(c, cls):
     """'from any starting point': a start vector (or solution) of large norm - the same well-conditioned system in other units. The solver either reaches its
     relative-residual criterion, or uses up its iteration budget (k == maxit tells the caller); it must not hand back an unconverged point after a few
@@ -402,4 +418,7 @@ def jobs(tier):
     for start in ('zero', 'coordinate_vector', 'partly_zero'):
         for form in ('matrix', 'function'):
             J.append(Job(f'CGLS:real_constructor:run_to_convergence:m=4:n=3:{form}:shift=True:start={start}', lambda c, f=form, st=start: cgls_converged(c, 4, 3, f, True, st), 'B', F('CGLS.__init__', 'CGLS.solve'), nnum=3))
+    for cls in ('CGLS', 'PCGLS'):
+        for form in ('matrix', 'function'):
+            J.append(Job(f'{cls}:real_constructor:long_run:m=120:n=80:{form}', lambda c, cls=cls, f=form: cgls_long_run(c, cls, f), 'B', F(f'{cls}.solve'), nnum=2))
     return J
